@@ -159,43 +159,6 @@ theorem mainLoop_spec (c : Cfg) (endT : Int) (bt : Batch) (recs : List Record) :
           · simp only [hr]
             exact ih more cur cur'
 
-/-- with everything in memory nothing is filtered -/
-theorem onePass_cur_indep (c : Cfg) (endT : Int) (recs : List Record) (more cur cur' : Int) :
-    (onePass c endT more cur recs).adds = (onePass c endT more cur' recs).adds ∧
-    (onePass c endT more cur recs).rest = (onePass c endT more cur' recs).rest := by
-  -- both are the unfiltered version of the same `mainLoop`
-  let bt : Batch := ⟨0, 0, 0, 0⟩
-  have h1 := mainLoop_spec c endT bt recs more cur cur
-  have h2 := mainLoop_spec c endT bt recs more cur cur'
-  refine ⟨?_, h1.2.1.symm.trans h2.2.1⟩
-  -- adds: not via the filter; direct induction is simpler
-  clear h1 h2
-  induction recs generalizing more cur cur' with
-  | nil => simp [onePass]
-  | cons r rs ih =>
-    unfold onePass
-    by_cases hm : more = 0
-    · simp [hm]
-    · simp only [hm, if_false]
-      cases r with
-      | time t =>
-        try simp only
-        split
-        · split
-          · rfl
-          · exact ih more t t
-        · exact ih more cur cur'
-      | event e =>
-        try simp only
-        split
-        · exact ih more cur cur'
-        · split
-          · try simp only
-            split
-            · exact ih more cur cur'
-            · simp only [List.cons.injEq, true_and]; exact ih _ cur cur'
-          · exact ih more cur cur'
-
 /-! ### the batches partition the output data -/
 
 open List in
